@@ -628,6 +628,9 @@ type Case struct {
 	Eager bool    `json:"eager,omitempty"`
 	Code  uint32  `json:"code"`
 	Msg   string  `json:"msg,omitempty"`
+	// Kind "hammer" (conc.go): the chains of Batch are worked on by G goroutines at the same time, Rounds visits each.
+	G      int `json:"g,omitempty"`
+	Rounds int `json:"rounds,omitempty"`
 }
 
 // Info is what the classifier needs.
@@ -680,6 +683,13 @@ type Info struct {
 	ObjHTMLChar   bool // ... hold one of the characters < > & U+2028 U+2029 themselves
 	ObjQuote      bool // ... hold a double quote
 	Lit           []string // classes of embedded literal objects (lit.go)
+	// hammer cases (conc.go)
+	Hammer        bool
+	HammerG       int   // goroutines that ran
+	HammerClasses int   // distinct classes among the chains whose class is reachable through Unwrap only
+	HammerVisits  int64 // visits of a chain made by all goroutines together
+	HammerObj     bool  // a chain carries an object (extracted concurrently)
+	HammerFresh   bool  // a chain is re-assembled by the goroutines themselves inside the loop
 }
 
 // Run executes the case.
@@ -695,6 +705,10 @@ func Run(c Case) (info Info, v *vstat.Violation) {
 			return runChains(c.Batch, c.Eager, &info)
 		case "code":
 			return runCode(c, &info)
+		case "hammer":
+			info.Batch = len(c.Batch)
+			info.Eager = true
+			return runHammer(c, &info)
 		}
 		panic("bad kind " + c.Kind)
 	})
@@ -1381,9 +1395,12 @@ func runCode(c Case, info *Info) *vstat.Violation {
 func (c Case) Hash() uint64 { return vstat.Hash(c) }
 
 // NonTrivial is the rule of C19: a chain in which the class is reachable only through Unwrap (>= 1 wrap
-// level) or that carries an embedded object; a batch with >= 2 embedded objects; a non-OK code.
+// level) or that carries an embedded object; a batch with >= 2 embedded objects; a non-OK code; a hammer case in which >= 2
+// goroutines ran over chains of >= 2 different classes that are reachable through Unwrap only.
 func (i Info) NonTrivial() bool {
 	switch {
+	case i.Hammer:
+		return i.HammerG >= 2 && i.HammerClasses >= 2
 	case i.Chain:
 		return i.Depth >= 1 || i.Embed != ""
 	case i.Batch > 0:
@@ -1396,6 +1413,28 @@ func (i Info) NonTrivial() bool {
 func (i Info) Classes() []string {
 	var c []string
 	switch {
+	case i.Hammer:
+		c = append(c, "hammer_goroutines_work_on_chains_of_different_classes_concurrently", fmt.Sprintf("hammer_chains:%d", i.Batch),
+			fmt.Sprintf("hammer_distinct_wrapped_classes:%d", i.HammerClasses))
+		switch g := i.HammerG; {
+		case g <= 2:
+			c = append(c, "hammer_goroutines:2")
+		case g <= 4:
+			c = append(c, "hammer_goroutines:3..4")
+		case g <= 8:
+			c = append(c, "hammer_goroutines:5..8")
+		default:
+			c = append(c, "hammer_goroutines:>8")
+		}
+		if i.HammerObj {
+			c = append(c, "hammer_objects_extracted_concurrently")
+		}
+		if i.HammerFresh {
+			c = append(c, "hammer_chains_assembled_inside_the_goroutines")
+		}
+		if i.Batch > i.HammerG {
+			c = append(c, "hammer_more_chains_than_goroutines")
+		}
 	case i.Chain:
 		c = append(c, "chain", "class:"+i.Class, fmt.Sprintf("depth:%d", i.Depth))
 		if i.Embed == "" {
